@@ -390,6 +390,13 @@ class Exec(HeapMixin, SpecEvalMixin, ExprMixin, StmtMixin, CallMixin):
                     d = self.field_decl(item[1], item[2])
                     for suf, so in layout(d[1]) + ([("$has", BOOL)] if d[2] else []):
                         permitted[f"{d[0]}.{item[2]}{suf}"] = None
+                elif kind == "open*":
+                    for key, _so in self.OPEN_KEYS:
+                        permitted[key] = None
+                elif kind == "open":
+                    for key, _so in self.OPEN_KEYS:
+                        if permitted.get(key, []) is not None:
+                            permitted.setdefault(key, []).append(item[1].t)
                 elif kind == "field":
                     d = self.field_decl(item[1].cls, item[2])
                     if d is None:
